@@ -100,6 +100,112 @@ def same_value(a: Any, b: Any) -> bool:
 # native function lookup
 # --------------------------------------------------------------------------
 
+# ---- z3 terms for the operator-binding (guard) contracts of C05 -----------------------------------------------
+_Z3OP_NATIVE: Dict[str, int] = {}
+
+
+def native_z3op(name: str) -> int:
+    if name not in _Z3OP_NATIVE:
+        _Z3OP_NATIVE[name] = 1000 + len(_Z3OP_NATIVE)
+    return _Z3OP_NATIVE[name]
+
+
+class NativeZ3Expr:
+    """a real z3 term together with the abstract view (op category, declaration name) the contracts speak about"""
+    def __init__(self, term):
+        import z3
+        self.term = term
+        self.declname = term.decl().name() if z3.is_app(term) else ""
+        kind = None
+        if z3.is_string_value(term): kind = "VALUE:is_string_value"
+        elif z3.is_int_value(term): kind = "VALUE:is_int_value"
+        elif z3.is_rational_value(term): kind = "VALUE:is_rational_value"
+        elif z3.is_app(term):
+            k = term.decl().kind()
+            names = [n for n in dir(z3) if n.startswith("Z3_OP_") and getattr(z3, n) == k]
+            kind = names[0] if names else f"KIND:{k}"
+        self.op_name = kind or "OTHER"
+        self.op = native_z3op(self.op_name)
+
+    def __repr__(self):
+        return f"<z3 term {self.term.sexpr()} : {self.op_name}>"
+
+
+def sample_z3_term(op_name: Optional[str], declname: str = ""):
+    """a z3 term whose head symbol has the requested category (for replaying guard counter-models)"""
+    import z3
+    x, y = z3.Int("x"), z3.Int("y")
+    s, t = z3.String("s"), z3.String("t")
+    r = z3.Re("a")
+    b, c = z3.Bool("b"), z3.Bool("c")
+    table = {
+        "Z3_OP_NOT": z3.Not(b), "Z3_OP_AND": z3.And(b, c), "Z3_OP_OR": z3.Or(b, c), "Z3_OP_EQ": x == y,
+        "Z3_OP_LT": x < y, "Z3_OP_LE": x <= y, "Z3_OP_GT": x > y, "Z3_OP_GE": x >= y, "Z3_OP_ADD": x + y,
+        "Z3_OP_SUB": x - y, "Z3_OP_MUL": x * y, "Z3_OP_DIV": z3.Real("p") / z3.Real("q"), "Z3_OP_IDIV": x / y,
+        "Z3_OP_MOD": x % y, "Z3_OP_POWER": x ** y, "Z3_OP_SEQ_LENGTH": z3.Length(s), "Z3_OP_SEQ_CONCAT": z3.Concat(s, t),
+        "Z3_OP_SEQ_AT": s.at(x), "Z3_OP_SEQ_EXTRACT": z3.SubString(s, x, y), "Z3_OP_STR_TO_CODE": z3.StrToCode(s),
+        "Z3_OP_SEQ_TO_RE": z3.Re(s), "Z3_OP_RE_CONCAT": z3.Concat(r, z3.Re("b")), "Z3_OP_SEQ_IN_RE": z3.InRe(s, r),
+        "Z3_OP_RE_STAR": z3.Star(r), "Z3_OP_RE_PLUS": z3.Plus(r), "Z3_OP_RE_OPTION": z3.Option(r),
+        "Z3_OP_RE_UNION": z3.Union(r, z3.Re("b")), "Z3_OP_RE_FULL_SET": z3.Full(z3.ReSort(z3.StringSort())),
+        "Z3_OP_FALSE": z3.BoolVal(False), "Z3_OP_TRUE": z3.BoolVal(True), "Z3_OP_STR_TO_INT": z3.StrToInt(s),
+        "Z3_OP_RE_LOOP": z3.Loop(r, 1, 2), "Z3_OP_RE_RANGE": z3.Range("a", "b"), "Z3_OP_RE_COMPLEMENT": z3.Complement(r),
+        "VALUE:is_string_value": z3.StringVal("a"), "VALUE:is_int_value": z3.IntVal(3),
+        "VALUE:is_rational_value": z3.RealVal("1/2"), "Z3_OP_UMINUS": -x, "Z3_OP_ITE": z3.If(b, x, y),
+        "Z3_OP_SEQ_PREFIX": z3.PrefixOf(s, t), "Z3_OP_SEQ_CONTAINS": z3.Contains(s, t), "Z3_OP_REM": z3.ToInt(z3.Real("p")),
+    }
+    if op_name in table:
+        return table[op_name]
+    by_name = {"re.range": z3.Range("a", "b"), "re.comp": z3.Complement(r)}
+    if declname in by_name:
+        return by_name[declname]
+    return None
+
+
+def call_native_guard(c, reg, combo: Dict[str, Any]) -> Dict[str, Any]:
+    """replay of a guard counter-model: build a real term with the model's head-symbol category, call the real
+    case function on it and evaluate the contract natively"""
+    import z3
+    from returns.maybe import Nothing
+    modname, attr = c.native[len("guard:"):].split(":")
+    fn = getattr(importlib.import_module(modname), attr)
+    ev = getattr(importlib.import_module(modname), "evaluate_z3_expression")
+    spec = combo.get("expr", {})
+    decl = spec.get("fields", {}).get("declname", {})
+    declname = decl.get("v", "") if isinstance(decl, dict) else ""
+    cands = []
+    term = sample_z3_term(spec.get("op_name"), declname)
+    if term is not None:
+        cands.append(term)
+    else:
+        # the model's category is none of the named ones: any term of a category the contract does not name
+        cands = [t_ for t_ in (sample_z3_term(n) for n in ("Z3_OP_UMINUS", "Z3_OP_ITE", "Z3_OP_SEQ_PREFIX", "Z3_OP_IDIV",
+                                                          "Z3_OP_SEQ_CONTAINS")) if t_ is not None]
+    out: Dict[str, Any] = {"pre": True}
+    for term in cands:
+        expr = NativeZ3Expr(term)
+        try:
+            children = tuple(ev(ch).unwrap() for ch in term.children())
+        except Exception:  # noqa
+            children = tuple(((), None) for _ in term.children())
+        try:
+            res = fn(term, children)
+        except BaseException as exc:  # noqa
+            res = ("raised", repr(exc))
+        result = None if res is Nothing or res == Nothing else res
+        env = {"expr": expr, "children_results": children, "result": result}
+        out.update(term=term.sexpr(), category=expr.op_name, result_repr=repr(res)[:200])
+        ok = True
+        for cname, ctext in c.ensures_items():
+            if not bool(C.eval_clause(ctext, reg, env, extra={"z3op": native_z3op})):
+                ok = False
+                out.update(ok=False, failed_clause=cname,
+                           why=f"{attr}({term.sexpr()}) {'answers' if result is not None else 'declines'}: "
+                               f"post-condition {cname} `{ctext}` is false (term category {expr.op_name})")
+                return out
+        out["ok"] = ok
+    return out
+
+
 def resolve_native(c, reg) -> Callable:
     spec = c.native
     if spec.startswith("lambda:"):
@@ -122,6 +228,8 @@ def resolve_native(c, reg) -> Callable:
 def call_native(c, reg, combo: Dict[str, Any]) -> Dict[str, Any]:
     """call the real function on JSON-described arguments and evaluate the
     contract natively.  Returns dict(pre, post, result/exc, ok)."""
+    if c.native.startswith("guard:"):
+        return call_native_guard(c, reg, combo)
     fn = resolve_native(c, reg)
     names = c.arg_order or list(c.types.keys())
     args = {n: to_native(combo[n], reg) for n in combo}
